@@ -13,6 +13,7 @@ from decimal import Decimal
 import numpy as np
 
 import circgen
+import pyutil
 import common
 
 ID = "C02"
@@ -194,9 +195,13 @@ def oracle(ctx, rnd, els):
                                 clause="numerically computed impedance equals the documented closed-form equation")
     # circuits
     symbols = [s for s in els if s not in ("Xo", "Xz", "Xp")]
+    from pyimpspec import parse_cdc
+    tlm_codes = ["RTlm", "Tlm{X_1=R(RC)}", "R(C[RTlm{X_2=R,Zeta=(RQ)}])", "Tlm{X_1=R,X_2=R,Z_A=Q,Z_B=R,Zeta=Q}L"]
     for _ in range(150 if big else 25):
         t = circgen.fill(rnd, circgen.random_shape(rnd, rnd.randint(1, 6)), symbols)
         c = Circuit(circgen.build(t))
+        if _ % 3 == 0 and _ // 3 < (len(tlm_codes) if big else 2):
+            c = parse_cdc(tlm_codes[(_ // 3 + rnd.randrange(len(tlm_codes))) % len(tlm_codes)])
         f = 10 ** rnd.uniform(-4, 7)
         try:
             with np.errstate(all="ignore"):
@@ -206,6 +211,30 @@ def oracle(ctx, rnd, els):
             ctx.count("oracle:circuit-skipped:" + type(x).__name__)
             continue
         ctx.count("oracle:circuit")
+        if _ % 3 == 0:
+            # observe - change the parameters in place (also of elements nested in containers) - observe again: the symbolic
+            # expression must follow the circuit's current state
+            try:
+                only_nested = rnd.random() < 0.5     # leave container elements themselves alone half of the time
+                for e in pyutil.all_elements(c):
+                    if (only_nested and isinstance(e, Container)) or rnd.random() < 0.25:
+                        continue
+                    lo, hi, vals = e.get_lower_limits(), e.get_upper_limits(), {}
+                    for k, v in e.get_values().items():
+                        nv = v * rnd.uniform(1.5, 3.0)
+                        if lo[k] <= nv <= hi[k] and k not in ("n", "a", "b", "n_B"):
+                            vals[k] = nv
+                    if vals:
+                        e.set_values(**vals)
+                with np.errstate(all="ignore"):
+                    z2 = complex(c.get_impedances(np.array([f]))[0])
+                zs2 = sym_eval(c, f)
+                ctx.count("oracle:circuit:after-in-place-change")
+                if benign(z2) and benign(zs2) and relerr(z2, zs2) > 1e-6 and well_conditioned(lambda x: c.get_impedances(np.array([x]))[0], f):
+                    ctx.add_failing("circuit-vs-symbolic", {"cdc": c.serialize(17), "f": f, "history": "expression requested, parameters changed in place, expression requested again"}, observed=str(z2), expected=str(zs2),
+                                    clause="the symbolic impedance expression of a circuit with values substituted evaluates to the numeric impedance")
+            except Exception as x:  # noqa
+                ctx.count("oracle:circuit:after-in-place-change:skipped:" + type(x).__name__)
         if benign(z) and benign(zs) and relerr(z, zs) > 1e-6 and not well_conditioned(lambda x: c.get_impedances(np.array([x]))[0], f):
             ctx.count("oracle:skipped-ill-conditioned")
             continue
